@@ -190,7 +190,7 @@ func (d *Data) getManyLabelPoints(mapped []uint64, v dvid.VersionID, bptsSlice b
 	var readerWG sync.WaitGroup
 	numReaders := 16
 	readerCh := make(chan *blockPtsI, numReaders)
-	errorCh := make(chan error)
+	errorCh := make(chan error, numReaders) // each reader reports at most one error, and nobody listens until they are done
 	for r := 0; r < numReaders; r++ {
 		readerWG.Add(1)
 		go func(reader int) {
